@@ -172,7 +172,7 @@ func propC18(r *kernel.Run) {
 	model()
 
 	small := tp.Draw(3) == 0
-	kMax, mMax := 6, 4
+	kMax, mMax := r.Deep(6, 10), r.Deep(4, 6)
 	if small {
 		kMax, mMax = 2, 2
 	}
